@@ -41,8 +41,9 @@ class HangDetected(Exception):
 
 
 class Watchdog:
-    """Fires when one execution has burnt `seconds` of *CPU time* of this process (wall time would
-    misfire on a loaded machine): only an unbounded loop without a scheduling point gets there."""
+    """Fires when the process has burnt `seconds` of *CPU time* (wall time would misfire on a loaded
+    machine) while the scheduler's step counter stood still: only an unbounded loop without a
+    scheduling point gets there (scheduler-level livelocks are ended by the step budget instead)."""
 
     def __init__(self, seconds):
         self.seconds = seconds
@@ -51,17 +52,23 @@ class Watchdog:
         self._t = None
 
     def _watch(self):
-        t0 = _rtime.process_time()
-        while not self._stop.wait(0.5):
-            if _rtime.process_time() - t0 < self.seconds:
-                continue
+        last_steps, t0 = -1, _rtime.process_time()
+        while not self._stop.wait(0.2):
             s = S.CUR
-            if s is None or s.cur is None or s.cur.os_ident is None:
+            if s is None:
+                continue
+            now = _rtime.process_time()
+            if s.steps != last_steps:          # the scheduler is making progress: not a busy loop
+                last_steps, t0 = s.steps, now
+                continue
+            if now - t0 < self.seconds:
+                continue
+            if s.cur is None or s.cur.os_ident is None:
                 return
             self.fired = True
             ctypes.pythonapi.PyThreadState_SetAsyncExc(
                 ctypes.c_ulong(s.cur.os_ident), ctypes.py_object(HangDetected))
-            t0 = _rtime.process_time()
+            t0 = now
 
     def __enter__(self):
         self._t = _rt.Thread(target=self._watch, daemon=True)
@@ -80,6 +87,9 @@ def run(body, horizon=120.0, wd=8.0, step_budget=150_000, **kw):
     with Watchdog(wd) as w:
         ex = S.run_once(body, horizon=S.EPOCH + horizon, step_budget=step_budget, **kw)
     install.cleanup_after_execution()
+    if w.fired:
+        # a carrier thread may still have the asynchronous exception pending: never reuse the pool
+        del S._pool[:]
     return ex, w.fired
 
 
@@ -315,6 +325,8 @@ def apply_deviation(dev, raw, spec, filler=b"\xa5" * 64):
     what = dev[0]
     if what == "ptype-empty":
         return bytes([dev[1]])
+    if what == "as-built":
+        return raw
     if what == "wrongtype":
         return bytes([dev[1]]) + body
     if what == "append64":
